@@ -104,6 +104,9 @@ def state_fn(cfg, h, m, ref):
 
 def report(ctx):
     def on_violation(cfgname, hist, v):
+        if v[0] == 'refine-raised':
+            ctx.refine_raised = getattr(ctx, 'refine_raised', 0) + 1  # a plain bisection failed: C02's business
+            return
         (tag, sigma), detail = v
         ctx.violation({'cfg': cfgname, 'tag': tag, 'sigma': sigma},
                       'grading sigma={} K=4 on {} after history {}: {}: {}'.format(sigma, cfgname, list(hist), tag, detail),
